@@ -48,18 +48,18 @@ var profiles = map[string]Profile{
 	"spend-shared": {Name: "spend-shared", MaxClients: 5, MaxOps: 4, MaxGens: 1, MaxLedgers: 2, WKind: [5]int{14, 1, 1, 1, 0},
 		Tpls: []int{tplOrderedVars, tplOrderedVars, tplOrderedVars, tplVar}, WorldVarPct: 25, NoBuggify: true, BigCache: true,
 		CancelBlockedPct: 5, IKPool: 2, RefPool: 2, TargetPool: 3, FundMax: 10, AmountMax: 12},
-	"spend-faults": {Name: "spend-faults", MaxClients: 5, MaxOps: 3, MaxGens: 3, MaxLedgers: 1, WKind: [5]int{12, 3, 2, 2, 0},
+	"spend-faults": {Name: "spend-faults", MaxClients: 5, MaxOps: 3, MaxGens: 3, MaxLedgers: 2, WKind: [5]int{12, 3, 2, 2, 0},
 		Tpls:     []int{tplLit, tplVar, tplMeta, tplOrdered, tplMax, tplOverdraftBounded, tplAll, tplBalance, tplTwoSends, tplOrderedVars},
 		CrashPct: 60, WriteFailPct: 20, ReadFailPct: 20, CancelBlockedPct: 20, CancelPct: 5, IKPool: 2, RefPool: 2, TargetPool: 3, FundMax: 12, AmountMax: 12},
 	// C05: mixed writers, batch boundaries everywhere, restarts
-	"chain": {Name: "chain", MaxClients: 6, MaxOps: 4, MaxGens: 4, MaxLedgers: 2, WKind: [5]int{6, 3, 3, 3, 2},
+	"chain": {Name: "chain", BigIDs: true, MaxClients: 6, MaxOps: 4, MaxGens: 4, MaxLedgers: 2, WKind: [5]int{6, 3, 3, 3, 2},
 		Tpls:  []int{tplWorld, tplLit, tplVar, tplOverdraftUnbounded, tplSetAccountMeta},
 		IKPct: 10, RefPct: 10, DryPct: 10, CrashPct: 70, WriteFailPct: 15, ReadFailPct: 10, ClockPct: 20, IKPool: 3, RefPool: 3, TargetPool: 4, CancelBlockedPct: 20, CancelPct: 6, FundMax: 50, AmountMax: 5},
 	"chain-nofault": {Name: "chain-nofault", MaxClients: 6, MaxOps: 4, MaxGens: 3, MaxLedgers: 2, WKind: [5]int{6, 3, 3, 3, 2},
 		Tpls:  []int{tplWorld, tplLit, tplVar, tplOverdraftUnbounded, tplSetAccountMeta},
 		IKPct: 10, RefPct: 10, DryPct: 10, ClockPct: 20, IKPool: 3, RefPool: 3, TargetPool: 4, FundMax: 50, AmountMax: 5},
 	// C06: all faults
-	"durability": {Name: "durability", MaxClients: 5, MaxOps: 4, MaxGens: 4, MaxLedgers: 2, WKind: [5]int{6, 3, 3, 3, 3},
+	"durability": {Name: "durability", BigIDs: true, MaxClients: 5, MaxOps: 4, MaxGens: 4, MaxLedgers: 2, WKind: [5]int{6, 3, 3, 3, 3},
 		Tpls:  []int{tplWorld, tplLit, tplVar, tplOverdraftBounded, tplAll, tplSetAccountMeta, tplMeta},
 		IKPct: 15, RefPct: 15, DryPct: 5, TSPct: 20, CrashPct: 70, WriteFailPct: 40, ReadFailPct: 40, CancelBlockedPct: 25, CancelPct: 10, ClockPct: 10,
 		IKPool: 3, RefPool: 3, TargetPool: 4, FundMax: 20, AmountMax: 8},
@@ -67,7 +67,7 @@ var profiles = map[string]Profile{
 		Tpls:  []int{tplWorld, tplLit, tplVar, tplOverdraftBounded, tplAll, tplSetAccountMeta, tplMeta},
 		IKPct: 15, RefPct: 15, DryPct: 5, TSPct: 20, IKPool: 3, RefPool: 3, TargetPool: 4, FundMax: 20, AmountMax: 8},
 	// C07
-	"idem": {Name: "idem", MaxClients: 5, MaxOps: 3, MaxGens: 4, MaxLedgers: 1, WKind: [5]int{6, 3, 3, 3, 2},
+	"idem": {Name: "idem", BigIDs: true, MaxClients: 5, MaxOps: 3, MaxGens: 4, MaxLedgers: 2, WKind: [5]int{6, 3, 3, 3, 2},
 		Tpls:  []int{tplWorld, tplLit, tplVar, tplOverdraftUnbounded},
 		IKPct: 80, RefPct: 5, DryPct: 3, CrashPct: 60, WriteFailPct: 20, ReadFailPct: 10, IKPool: 2, RefPool: 2, TargetPool: 2, CancelBlockedPct: 20, CancelPct: 6, FundMax: 30, AmountMax: 5},
 	"idem-nofault": {Name: "idem-nofault", MaxClients: 5, MaxOps: 3, MaxGens: 3, MaxLedgers: 1, WKind: [5]int{6, 3, 3, 3, 2},
@@ -81,14 +81,14 @@ var profiles = map[string]Profile{
 		Tpls: []int{tplOrderedVars, tplVar, tplArith, tplArith, tplPortionVar, tplMetaVar, tplAssetVar, tplAssetVar, tplSaveVar, tplOverdraftUnbounded, tplRaw, tplRaw}, WorldVarPct: 25, BigCache: true,
 		IKPool: 2, RefPool: 2, TargetPool: 3, FundMax: 100, AmountMax: 4},
 	// C10
-	"revert": {Name: "revert", MaxClients: 5, MaxOps: 3, MaxGens: 3, MaxLedgers: 1, WKind: [5]int{4, 4, 10, 1, 0},
+	"revert": {Name: "revert", BigIDs: true, MaxClients: 5, MaxOps: 3, MaxGens: 3, MaxLedgers: 2, WKind: [5]int{4, 4, 10, 1, 0},
 		Tpls:  []int{tplLit, tplVar, tplAll, tplTwoSends, tplSplit, tplWorld},
 		IKPct: 15, RefPct: 0, DryPct: 3, CrashPct: 40, WriteFailPct: 10, IKPool: 2, RefPool: 2, TargetPool: 3, CancelBlockedPct: 20, CancelPct: 6, FundMax: 12, AmountMax: 10},
 	"revert-nofault": {Name: "revert-nofault", MaxClients: 5, MaxOps: 3, MaxGens: 2, MaxLedgers: 1, WKind: [5]int{4, 4, 10, 1, 0},
 		Tpls:  []int{tplLit, tplVar, tplAll, tplTwoSends, tplSplit, tplWorld},
 		IKPct: 15, RefPct: 0, DryPct: 3, IKPool: 2, RefPool: 2, TargetPool: 3, FundMax: 12, AmountMax: 10},
 	// C11
-	"ref": {Name: "ref", MaxClients: 5, MaxOps: 3, MaxGens: 3, MaxLedgers: 1, WKind: [5]int{8, 5, 1, 1, 0},
+	"ref": {Name: "ref", MaxClients: 5, MaxOps: 3, MaxGens: 3, MaxLedgers: 2, WKind: [5]int{8, 5, 1, 1, 0},
 		Tpls:  []int{tplWorld, tplLit, tplVar, tplAll},
 		IKPct: 5, RefPct: 85, DryPct: 3, CrashPct: 40, WriteFailPct: 10, ReadFailPct: 10, IKPool: 2, RefPool: 2, TargetPool: 2, CancelBlockedPct: 20, CancelPct: 6, FundMax: 8, AmountMax: 10},
 	"ref-nofault": {Name: "ref-nofault", MaxClients: 5, MaxOps: 3, MaxGens: 2, MaxLedgers: 1, WKind: [5]int{8, 5, 1, 1, 0},
@@ -99,7 +99,7 @@ var profiles = map[string]Profile{
 		Tpls:  []int{tplWorld, tplLit, tplVar, tplSetAccountMeta, tplOverdraftUnbounded},
 		IKPct: 40, RefPct: 20, DryPct: 0, TSPct: 60, BigPct: 40, CrashPct: 70, ClockPct: 40, IKPool: 3, RefPool: 3, TargetPool: 4, CancelBlockedPct: 20, CancelPct: 6, FundMax: 30, AmountMax: 5},
 	// C16
-	"events": {Name: "events", CrashPct: 45, MaxClients: 5, MaxOps: 3, MaxGens: 3, MaxLedgers: 2, WKind: [5]int{5, 3, 5, 3, 3},
+	"events": {Name: "events", BigIDs: true, CrashPct: 45, MaxClients: 5, MaxOps: 3, MaxGens: 3, MaxLedgers: 2, WKind: [5]int{5, 3, 5, 3, 3},
 		Tpls:  []int{tplWorld, tplLit, tplVar, tplSetAccountMeta, tplAll},
 		IKPct: 25, RefPct: 5, DryPct: 20, CancelPct: 8, CancelBlockedPct: 25, IKPool: 2, RefPool: 2, TargetPool: 3, FundMax: 20, AmountMax: 6},
 	// C14 invariant form under concurrency
@@ -270,7 +270,11 @@ func GenInput(t *rapid.T, p *Profile) *Input {
 		}
 	}
 	cfg.MaskSites = p.MaskSites
-	if p.BigIDs && pct(t, 50, "bigIDs") {
+	bigPct := 20
+	if p.Name == "audit" {
+		bigPct = 50
+	}
+	if p.BigIDs && pct(t, bigPct, "bigIDs") {
 		cfg.TxIDBase = rapid.SampledFrom([]string{"16777217", "9007199254740993", "4294967296"}).Draw(t, "txIdBase")
 	}
 
